@@ -1,0 +1,1 @@
+//! Hooks owned by property C06 (feature `verif-hooks`).
